@@ -30,6 +30,8 @@ HEADER_SHAPES = {
     "rep": [{"name": "x-gen-%s", "value": ["v1", "v2", "v1"]}],
     "mixed": [{"name": "X-Gen-%s-Mixed", "value": ["Value One"]}, {"name": "x-gen-%s-two", "value": ["a, b"]}],
     "bin": [{"name": "x-gen-%s-bin", "value": ["AAEC/w", "/v8"]}, {"name": "X-Gen-%s-Cap-Bin", "value": ["AAECAwQF"]}, {"name": "x-gen-%s-up-BIN", "value": ["/w"]}],
+    # names that merely resemble the ones the runner adds itself (x-test-case-name, x-expect-*)
+    "near": [{"name": "x-expected-%s", "value": ["r1"]}, {"name": "X-Expectation", "value": ["e"]}, {"name": "x-test-case-name-%s", "value": ["n"]}, {"name": "x-expect", "value": ["x"]}],
     # the same name in response headers and trailers (values differ per block)
     "shared": [{"name": "X-Gen-Shared", "value": ["%s-1", "%s-2"]}],
 }
@@ -41,7 +43,7 @@ def headers(shape, which):
         if shape == "shared":
             out.append({"name": h["name"], "value": [v % which for v in h["value"]]})
         else:
-            out.append({"name": h["name"] % which, "value": list(h["value"])})
+            out.append({"name": (h["name"] % which) if "%s" in h["name"] else h["name"], "value": list(h["value"])})
     return out
 
 
@@ -56,7 +58,7 @@ def header_combos(full):
     for s in shapes[1:]:
         combos.append((s, s, s))
     if not full:
-        combos = [combos[0], ("rep", "none", "none"), ("none", "mixed", "none"), ("none", "none", "bin"), ("mixed", "mixed", "mixed"), ("bin", "bin", "bin")]
+        combos = [combos[0], ("rep", "none", "none"), ("none", "mixed", "none"), ("none", "none", "bin"), ("mixed", "mixed", "mixed"), ("bin", "bin", "bin"), ("near", "near", "near")]
     # one name in both response headers and trailers (must be last: callers index combos[-2:], [0])
     combos.insert(1, ("none", "shared", "shared"))
     return combos
@@ -119,10 +121,46 @@ def gen_directive_suites():
             yield key, {"request": {"testName": "unary/" + cname, "streamType": "STREAM_TYPE_UNARY", "requestMessages": msgs}}
 
 
+SIZES = [0, 1, 255, 256, 257, 1023, 1024, 1025, 4095, 4096, 4097, 16383, 16384, 16385, 65535, 65536, 65537,
+         131071, 131072, 131073, 150000, 196608, 199000, 203000]
+
+
+def gen_size_suites(full):
+    """Unary POST and Connect GET with request / response payloads of every threshold size (below the reference
+    server's 200 KiB receive limit), a patterned content so that a shifted or truncated payload is seen."""
+    def blob(n, salt):
+        unit = bytes((i * 7 + salt) % 251 for i in range(251))
+        return b64((unit * (n // 251 + 1))[:n])
+    sizes = SIZES if full else [x for x in SIZES if x in (0, 1, 1024, 1025, 4096, 65536, 65537, 131072, 150000, 196608, 199000, 203000)]
+    get_attrs = {"relevantProtocols": ["PROTOCOL_CONNECT"], "reliesOnConnectGet": True, "relevantCompressions": ["COMPRESSION_IDENTITY"]}
+    SUITE_ATTRS["size-get"] = dict(get_attrs)
+    # the response payload travels inside the request's response definition, and JSON inflates bytes by 4/3: the
+    # sizes that fit under the server's 200 KiB receive limit only in the proto codec get suites of their own
+    SUITE_ATTRS["size-get-big"] = dict(get_attrs, relevantCodecs=["CODEC_PROTO"])
+    SUITE_ATTRS["size-post-big"] = {"relevantCodecs": ["CODEC_PROTO"]}
+    for key, mtype, extra in (("size-post", "UnaryRequest", {}),
+                              ("size-get", "IdempotentUnaryRequest", {"service": "connectrpc.conformance.v1.ConformanceService", "method": "IdempotentUnary", "useGetHttpMethod": True})):
+        base_key = key
+        for n in sizes:
+            key = base_key + ("-big" if n > 131073 else "")
+            for which in ("req", "resp"):
+                rq, rs = (n, 3) if which == "req" else (3, n)
+                msgs = [{"@type": T + mtype, "responseDefinition": {"responseData": blob(rs, 1)}, "requestData": blob(rq, 2)}]
+                req = {"testName": "unary/%s%d" % (which, n), "streamType": "STREAM_TYPE_UNARY", "requestMessages": msgs}
+                req.update(extra)
+                yield key, {"request": req}
+
+
 def gen_cases(level):
-    """Yields (suite_key, test_case_json). level: mini < quick < thorough; "dir": the suite-directive family only."""
+    """Yields (suite_key, test_case_json). level: mini < quick < thorough; "dir": the suite-directive family and the
+    payload-size family only."""
     if level == "dir":
         yield from gen_directive_suites()
+        yield from gen_size_suites(False)
+        return
+    if level == "dir-full":
+        yield from gen_directive_suites()
+        yield from gen_size_suites(True)
         return
     full = level == "thorough"
     mini = level == "mini"
@@ -288,7 +326,8 @@ def shape_of(name):
 
 def agreement(unit, work, tier, seed, repo, goenv):
     bindir = c01.build(repo, work, goenv)
-    passes = [("quick", QUICK_CONF), ("dir", MID_CONF)] if tier == "quick" else [("thorough", MID_CONF), ("mini", THOROUGH_CONF), ("dir", THOROUGH_CONF)]
+    get = lambda c: c.replace("supportsConnectGet: false", "supportsConnectGet: true")
+    passes = [("quick", QUICK_CONF), ("dir", get(MID_CONF))] if tier == "quick" else [("thorough", MID_CONF), ("mini", THOROUGH_CONF), ("dir-full", get(THOROUGH_CONF))]
     only = os.environ.get("VERIF_C02_ONLY")
     rep = {"evaluations": 0, "distinct_nontrivial": 0, "samples": [], "violations": [], "exhaustive": True, "outcomes": {}, "counters": {},
            "rule": "test-case shapes enumerated completely from a bounded grammar (stream type x request count x response data/error shape x error code/message/details x request-header/response-header/trailer shape), simplest first; one evaluation = one (shape x config case x peer pairing) permutation executed by the real binaries; non-trivial = distinct permutation name",
